@@ -246,6 +246,88 @@ func enclosingFuncName(stack []ast.Node) string {
 	return ""
 }
 
+// enclosingRecv: receiver identifier and receiver type name of the enclosing method ("" if none)
+func enclosingRecv(stack []ast.Node) (string, string) {
+	for i := len(stack) - 1; i >= 0; i-- {
+		if fd, ok := stack[i].(*ast.FuncDecl); ok {
+			if fd.Recv != nil && len(fd.Recv.List) > 0 && len(fd.Recv.List[0].Names) > 0 {
+				t := fd.Recv.List[0].Type
+				if s, ok := t.(*ast.StarExpr); ok {
+					t = s.X
+				}
+				if id, ok := t.(*ast.Ident); ok {
+					return fd.Recv.List[0].Names[0].Name, id.Name
+				}
+			}
+			return "", ""
+		}
+	}
+	return "", ""
+}
+
+// singletonTypes: named struct types of which a package-level variable holds an instance (directly or by pointer);
+// a field write through the receiver in a method of such a type is a write to package-level state
+func singletonTypes(files []*ast.File, info *types.Info) map[string]bool {
+	out := map[string]bool{}
+	for _, f := range files {
+		for _, d := range f.Decls {
+			gd, ok := d.(*ast.GenDecl)
+			if !ok || gd.Tok != token.VAR {
+				continue
+			}
+			for _, sp := range gd.Specs {
+				vs := sp.(*ast.ValueSpec)
+				for _, nm := range vs.Names {
+					obj := info.Defs[nm]
+					if obj == nil {
+						continue
+					}
+					t := obj.Type()
+					if p, ok := t.(*types.Pointer); ok {
+						t = p.Elem()
+					}
+					if n, ok := t.(*types.Named); ok {
+						if _, isStruct := n.Underlying().(*types.Struct); isStruct && n.Obj().Pkg() == obj.Pkg() {
+							out[n.Obj().Name()] = true
+						}
+					}
+				}
+			}
+		}
+	}
+	return out
+}
+
+// fixedArrays: local variables and struct fields whose type is a fixed-size array (scratch buffers with a capacity
+// that some input may exceed). The pinned tree has none outside its tables; the models use unbounded lists, so a
+// fixed capacity is a precondition the models do not carry.
+func fixedArrays(files []*ast.File, info *types.Info) []string {
+	var out []string
+	seen := map[string]bool{}
+	add := func(s string) {
+		if !seen[s] {
+			seen[s] = true
+			out = append(out, s)
+		}
+	}
+	for id, obj := range info.Defs {
+		v, ok := obj.(*types.Var)
+		if !ok || v.Pkg() == nil {
+			continue
+		}
+		if _, isArr := v.Type().Underlying().(*types.Array); !isArr {
+			continue
+		}
+		if v.IsField() {
+			add("field:" + id.Name + ":" + v.Type().String())
+		} else if v.Parent() != v.Pkg().Scope() {
+			add("local:" + id.Name + ":" + v.Type().String())
+		}
+	}
+	sort.Strings(out)
+	return out
+}
+
 func main() {
 	root := os.Args[1]
 	outDir := os.Args[2]
@@ -277,6 +359,7 @@ func main() {
 			conf := types.Config{Importer: importer.ForCompiler(fset, "source", nil), Error: func(err error) {}}
 			conf.Check(pkg.Name, fset, files, info)
 			e := &ex{info, fset}
+			singles := singletonTypes(files, info)
 			collectDict(p, files, fset, info)
 			var items []item
 			var skipped []string
@@ -364,6 +447,37 @@ func main() {
 							}
 							items = append(items, item{"v_" + name.Name, fmt.Sprintf("def v_%s : %s :=\n  %s", name.Name, ty, txt)})
 						}
+					case *ast.IncDecStmt, *ast.SendStmt:
+						// x++ on, or a send to, a package-level variable is run-time state as well (counters, free lists)
+						fn := enclosingFuncName(stack)
+						var target ast.Expr
+						if x, ok := d.(*ast.IncDecStmt); ok {
+							target = x.X
+						} else {
+							target = d.(*ast.SendStmt).Chan
+						}
+						for {
+							switch b := target.(type) {
+							case *ast.IndexExpr:
+								target = b.X
+								continue
+							case *ast.SelectorExpr:
+								target = b.X
+								continue
+							case *ast.StarExpr:
+								target = b.X
+								continue
+							case *ast.ParenExpr:
+								target = b.X
+								continue
+							}
+							break
+						}
+						if id, ok := target.(*ast.Ident); ok && fn != "init" && fn != "" {
+							if obj, ok := info.Uses[id].(*types.Var); ok && obj.Pkg() != nil && obj.Parent() == obj.Pkg().Scope() {
+								globalWrites = append(globalWrites, fn+":"+id.Name)
+							}
+						}
 					case *ast.AssignStmt:
 						fn := enclosingFuncName(stack)
 						if d.Tok == token.DEFINE && len(d.Lhs) == 1 && len(d.Rhs) == 1 {
@@ -428,6 +542,9 @@ func main() {
 								if id, ok := base.(*ast.Ident); ok {
 									if obj, ok := info.Uses[id].(*types.Var); ok && obj.Parent() == obj.Pkg().Scope() {
 										globalWrites = append(globalWrites, fn+":"+id.Name)
+									}
+									if rn, rt := enclosingRecv(stack); rn != "" && id.Name == rn && singles[rt] && base != l {
+										globalWrites = append(globalWrites, fn+":"+rt+"(singleton)")
 									}
 								}
 							}
@@ -501,6 +618,7 @@ func main() {
 			}
 			fmt.Fprintf(&b, "def fact_goStatements : List String := %s\n\n", q(goStmts))
 			fmt.Fprintf(&b, "def fact_globalWrites : List String := %s\n\n", q(globalWrites))
+			fmt.Fprintf(&b, "def fact_fixedArrays : List String := %s\n\n", q(fixedArrays(files, info)))
 			fmt.Fprintf(&b, "def fact_aliasAssign : List String := %s\n\n", q(aliasAssign))
 			fmt.Fprintf(&b, "def fact_lockedFuncs : List String := %s\n\n", q(lockedFuncs))
 			uniq := func(xs []string) []string {
